@@ -440,6 +440,62 @@ func runC20(c *Ctx, r *Report) {
 			}
 		}
 	}
+	// R6 (wrappers): the other methods that hand out words (PrefixAll, All) return what the enumeration returned,
+	// or return something of their own only for a node without children
+	{
+		strs := types.NewSlice(types.Typ[types.String])
+		enumCall := func(v ssa.Value) bool {
+			ex, ok := v.(*ssa.Extract)
+			if !ok {
+				return false
+			}
+			call, ok := ex.Tuple.(*ssa.Call)
+			if !ok {
+				return false
+			}
+			callee := call.Common().StaticCallee()
+			return callee != nil && callee.Pkg != nil && shortPkg(callee.Pkg.Pkg) == "trie" && callee.Signature.Recv() != nil
+		}
+		leafIdx := fieldIndex(trieT, "leaf")
+		nw := 0
+		for _, fn := range c.ModuleSSAFuncs() {
+			if fn.Pkg == nil || shortPkg(fn.Pkg.Pkg) != "trie" || fn.Signature.Recv() == nil || fn.Name() == "AllBytes" || len(fn.Blocks) == 0 {
+				continue
+			}
+			res := fn.Signature.Results()
+			idx := -1
+			for i := 0; i < res.Len(); i++ {
+				if types.Identical(res.At(i).Type(), strs) {
+					idx = i
+				}
+			}
+			if idx < 0 {
+				continue
+			}
+			k := 0
+			eachInstr(fn, func(in ssa.Instruction) {
+				ret, ok := in.(*ssa.Return)
+				if !ok || len(ret.Results) <= idx {
+					return
+				}
+				nw++
+				k++
+				good := enumCall(retVal(ret, idx))
+				if !good {
+					for _, cc := range controlling(ret.Block()) {
+						if c.noChildrenCond(cc, fn, minIdx, maxIdx, leafIdx) {
+							good = true
+						}
+					}
+				}
+				r.Check(good, "C20.R6", ssaFuncName(fn), fmt.Sprintf("return #%d hands out the enumeration's words", k), c.Pos(instrPos(ret)),
+					"a method that hands out the words below a node returns a list of its own making under a condition that does not mean `no children` (accepted: nil receiver, the leaf flag of the shared end marker, min > max): a node with one child byte has min == max, and the words below it disappear from the completion while Contains still finds them")
+			})
+		}
+		if nw < 2 {
+			r.Undecided("C20.R6: only %d returns of word lists found outside AllBytes (PrefixAll, All expected)", nw)
+		}
+	}
 	// R7: the completion callback asks the trie about exactly the text before the cursor
 	{
 		prefixAll := c.Fn("trie", "Trie.PrefixAll")
